@@ -1,23 +1,115 @@
-SPEC = dict(
-    pkg="lib/util/lifted/influx/influxql",
-    test="TestVerifC12",
-    level="exploration",
-    workers=16,
-    deadline={"quick": 240, "thorough": 1800},
-    rule="every expression text of the grammar (atoms x binary operators x parenthesisation, depth<=3) is parsed; "
-         "accepted texts are printed with String() and re-parsed; distinct_nontrivial = distinct canonical trees "
-         "(typed literals, ParenExpr removed) among accepted texts",
-    assumptions=["ParseExpr/String() are the functions used by processor_codec.go to ship conditions",
-                 "structural equality modulo ParenExpr nodes is the meaning of 'same expression tree'"],
-)
+"""C12 — a query shipped to the storage nodes is the query that was planned.
+
+Three overlaid in-package harnesses (three test binaries), one verdict:
+  influxql  hooks/lib/util/lifted/influx/influxql/c12_test.go (+ c12_lib.go)  TestVerifC12
+            every expression text of the grammar -> yacc / hand parser -> String() -> ParseExpr / ParseFields / re-plan
+  query     hooks/lib/util/lifted/influx/query/c12_test.go                     TestVerifC12Options
+            ProcessorOptions.MarshalBinary/UnmarshalBinary: expressions, every wire member, planned statements
+  executor  hooks/engine/executor/c12_test.go                                  TestVerifC12Executor
+            chunk codec, plan codec, QuerySchema / ExprOptions codec, RemoteQuery message
+"""
+import json, os, shutil, time
+
+import checklib
+
+CID = "C12"
+HOOKS = ["lib/util/lifted/influx/influxql", "lib/util/lifted/influx/query", "engine/executor"]
+# (name, package, test function, binary name)
+BINARIES = [
+    ("influxql", "lib/util/lifted/influx/influxql", "TestVerifC12", "t-influxql.bin"),
+    ("query", "lib/util/lifted/influx/query", "TestVerifC12Options", "t-query.bin"),
+    ("executor", "engine/executor", "TestVerifC12Executor", "t-executor.bin"),
+]
+DEADLINE = {"quick": 240, "thorough": 1800}
+WORKERS = 16
+LEVEL = "exploration"
+RULE = ("influxql: every expression text of the grammar (full literal alphabet x 19 binary operators x unary minus/plus/parentheses, "
+        "2 operands over the full alphabet, 3 operands over 13 atoms with all 3 parenthesisations, 4 operands with all 11 "
+        "parenthesisations, comparisons joined by AND/OR up to 4 operands) is offered to the yacc parser (WHERE clause, field list) and to "
+        "the hand-written parser; accepted texts are printed and re-parsed by the store-side parser; distinct_nontrivial = distinct "
+        "canonical typed trees (ParenExpr removed) of accepted texts, plus distinct option objects / statements / chunks / plans / "
+        "field lists / RPC messages pushed through the codecs of lib/util/lifted/influx/query and engine/executor")
+ASSUMPTIONS = [
+    "the yacc parser (NewYyParser, as called by the HTTP handler) is what plans a statement; ParseExpr, ParseStatement (hybridqp.ParseFields), "
+    "ParseSortFields are what the store uses to read shipped text back (processor_codec.go, engine/hybridqp)",
+    "structural equality modulo ParenExpr nodes, literal types included, is the meaning of 'same expression tree'",
+    "the pooled parser behind influxql.ParseExpr keeps two scanner flags of its previous user; the influxql harness sets them explicitly "
+    "(both values wherever they can matter) instead of using the pool, the codec harnesses skip printed texts that begin with a regex literal",
+    "members of ProcessorOptions / Measurement that have no counterpart in the protobuf message are not shipped by design and are not compared "
+    "(listed in coverage.notes)",
+    "fill values 5 and 5.0, nil and empty slices, and a nil and a zero fill value are the same option value",
+]
+
+
+def _which_binary(replay_path):
+    rc = json.load(open(replay_path)).get("replay") or {}
+    if rc.get("door"):
+        return BINARIES[0]
+    if rc.get("part") in ("exprs", "members", "sources", "statements"):
+        return BINARIES[1]
+    return BINARIES[2]
+
+
+def run(tier, replay):
+    t0 = time.time()
+    ov = checklib.gen_overlay(CID, HOOKS)
+    bdir = checklib.build_dir(CID)
+    scratch = checklib.scratch_root(CID)
+    try:
+        if replay:
+            name, pkg, test, binname = _which_binary(replay)
+            binp = checklib.go_test_build(CID, pkg, ov, out=os.path.join(bdir, binname))
+            reps = checklib.run_workers(CID, binp, test, "quick", 1, 600, scratch,
+                                        extra_env={"VERIF_REPLAY": os.path.abspath(replay)})
+            nv = sum(r.get("n_violations", 0) for r in reps)
+            for r in reps:
+                for v in r.get("violations") or []:
+                    print("REPLAY-VIOLATION kind=%s key=%s\n  %s" % (v["kind"], v["key"], v["detail"][:1500]))
+            print("replay: %s" % ("still fails" if nv else "passes"))
+            return 1 if nv else 0
+
+        deadline = int(os.environ.get("VERIF_DEADLINE_S", DEADLINE[tier]))
+        only = os.environ.get("C12_ONLY")  # development aid: run one harness
+        reports = []
+        built = []
+        for name, pkg, test, binname in BINARIES:
+            if only and name != only:
+                continue
+            built.append((name, test, checklib.go_test_build(CID, pkg, ov, out=os.path.join(bdir, binname))))
+        wall = {}
+        for name, test, binp in built:
+            t1 = time.time()
+            left = deadline  # per harness; builds and the other harnesses do not eat into it
+            sub = os.path.join(scratch, name)
+            os.makedirs(sub, exist_ok=True)
+            reports += checklib.run_workers(CID, binp, test, tier, WORKERS, left, sub)
+            wall[name] = round(time.time() - t1, 1)
+            checklib.log("%s workers done in %.1fs" % (name, wall[name]))
+        return checklib.finish(CID, tier, LEVEL, RULE, reports, t0, ASSUMPTIONS,
+                               extra_cov={"harness_wall_s": wall, "bound": {
+                                   "operands": 4, "atoms_full": 84, "atoms_3_operands": 13,
+                                   "atoms_4_operands": 4 if tier == "quick" else 6,
+                                   "operators_4_operands": 9 if tier == "quick" else 19,
+                                   "chunk_rows": 4, "plan_chain": 2 if tier == "quick" else 3}})
+    finally:
+        shutil.rmtree(scratch, ignore_errors=True)
+
 
 # Set CLAIMED = True once the check is clean on the unchanged tree (exit 0, KNOWN-FINDING lines allowed).
 CLAIMED = False
 MANIFEST = dict(
     level="exploration",
     engine="enumx",
-    technique="bounded exhaustive enumeration of expression texts (grammar depth <= 3) with print/re-parse differential oracle on the real parser and printer",
-    text="Every expression text of a finite grammar (all binary operators, parenthesisations, typed literal alphabet) up to depth 3 is "
-         "parsed, printed and re-parsed by the real code; trees are compared structurally with literal types. Exhaustive within the grammar bound.",
-    note="Trusts: Go runtime; the canonical tree printer of the harness; the grammar covers only the listed atoms/operators.",
+    technique="bounded exhaustive enumeration of expression texts (finite grammar, <= 4 operands, every parenthesisation) through both real "
+              "parsers, the real printer and the real store-side re-parsers, and of option / plan / chunk / RPC objects through the real codecs; "
+              "differential oracle: canonical typed tree / member-wise equality of decoded vs original",
+    text="Every expression text of a finite grammar (all binary and unary operators, parentheses at every position, typed literal alphabet "
+         "including quoted identifiers, escaped strings, 64-bit integer bounds, integral and huge floats, durations, regexes with slashes, calls "
+         "of arity 0-2, ::type casts) is planned by the real yacc parser and by the hand-written parser, printed, and read back the way the "
+         "store does (ParseExpr, ParseFields, ParseSortFields); the same expressions and every wire member of ProcessorOptions, planned "
+         "statements, plan operator chains, QuerySchema field lists, RemoteQuery messages and all chunks with <= 4 rows (every column type, "
+         "every null pattern) go through Marshal/Unmarshal; decoded must equal planned. Exhaustive within the stated bounds.",
+    note="Trusts: Go runtime; the harness's canonical tree printer and its own operator-precedence table; accessor-level observation of chunks "
+         "and plans. Not covered: expressions deeper than 4 operands, members of the options struct that are not in the wire message, plan "
+         "operators outside the chain menu (joins, CTE, graph), statement kinds other than SELECT.",
 )
